@@ -277,7 +277,7 @@ theorem size_pure {s : St} (hs : SizeOk s) (f : Ref) :
   have hst := size_storage s f
   have hc := size_cache s f
   refine ⟨by rw [hst]; exact hg.wf, by rw [hst]; exact hg.tinv, by rw [hn]; exact hg.inv,
-    by rw [hn]; exact hg.var0, by rw [hn, hc]; exact hg.cache, ?_⟩
+    by rw [hn]; exact hg.var0, by rw [hn, hc]; exact hg.cache, ?_, by rw [hst]; exact hg.rs⟩
   show (rd (size s f).1.storage.vals 1).var = 0
   rw [hst]; exact hg.term1
 
